@@ -16,13 +16,14 @@ THEOREMS = [
     "C11_kind_tables_component", "C11_kind_tables_item", "C11_kind_tables_complete",
     "C11_kind_tables_scope", "C11_kind_tables_scope_complete",
     "C11_lookup_order", "C11_lookup_first_match", "C11_absent_plain", "C11_case_insensitive", "C11_no_abort",
-    "C11_child_kind_error", "C11_child_sound", "C11_project_order",
+    "C11_child_kind_error", "C11_child_sound", "C11_project_order", "C11_lookup_item_kind_word",
 ]
 
 COMP_KINDS = ["procedure", "proc", "subroutine", "function", "interface", "absinterface", "block", "type", "file",
               "module", "submodule", "program", "namelist"]
 EXT_KINDS = ["extprocedure", "extproc", "extsubroutine", "extfunction", "extinterface", "extabsinterface", "exttype",
              "extmodule"]
+ITEM_ONLY_KINDS = ["bound", "common", "constructor", "final", "modproc", "variable"]
 ITEM_KINDS = ["absinterface", "bound", "common", "constructor", "final", "function", "interface", "modproc",
               "subroutine", "type", "variable"]
 CLASS_COMP_KINDS = {
@@ -104,9 +105,12 @@ def queries_for(rng, ab, nrandom):
         par = ab.ents[i]["parent"]
         if par is not None:
             c.append(par)
-            sibs = [j for j in ents if ab.ents[j]["parent"] == par and j != i]
+            sibs = [j for j in ents if ab.ents[j]["parent"] == par and j != i and j in ctxs]
             if sibs:
                 c.append(rng.choice(sibs))
+                leaves = [j for j in sibs if ab.ents[j]["cls"] in ("FortranVariable", "FortranBoundProcedure")]
+                if leaves:              # a leaf entity: the target is found in its parent
+                    c.append(rng.choice(leaves))
         c.append(rng.choice(documented))
         return [x for x in c if x is None or x in ctxs]
     for i in ents:
@@ -118,6 +122,9 @@ def queries_for(rng, ab, nrandom):
             out.append((ctx, (spell(rng, e["name"]), None, None, None)))
             for k in CLASS_COMP_KINDS.get(e["cls"], []):
                 out.append((ctx, (spell(rng, e["name"]), spell(rng, k), None, None)))
+            for k in CLASS_ITEM_KINDS.get(e["cls"], []):
+                if k in ITEM_ONLY_KINDS and re.fullmatch(r"\w+", e["name"]):
+                    out.append((ctx, (spell(rng, e["name"]), spell(rng, k), None, None)))
             if par is not None and re.fullmatch(r"\w+(\.\w+)?", ab.ents[par]["name"] or "") \
                     and re.fullmatch(r"\w+", e["name"]):
                 pn = ab.ents[par]["name"]
@@ -224,7 +231,8 @@ subroutine reset()
 end subroutine
 """,
 }
-CORPUS_REFS = ["reset", "reset(proc)", "reset(subroutine)", "reset(function)", "reset(bound)", "shape:reset",
+CORPUS_REFS = ["n(variable)", "N(Variable)", "fin(final)", "reset(BOUND)", "counter(variable)", "x(variable)",
+               "reset", "reset(proc)", "reset(subroutine)", "reset(function)", "reset(bound)", "shape:reset",
                "shape:reset(bound)", "shape(type):n", "helper", "helper(function)", "ma:helper", "MA(Module):Helper(FUNCTION)",
                "mb:helper", "x", "counter", "ma:counter(variable)", "ma:nosuch", "ma:helper(bound)", "ma(foo)",
                "ma:helper(foo)", "shape:shape(constructor)", "gen", "gen(interface)", "gen:reset(modproc)", "gen:reset",
@@ -254,6 +262,9 @@ def e2e_docs(rng, ab, keys, nper):
         r = rng.random()
         i = rng.choice(targets)
         e = ab.ents[i]
+        iks = [k for k in CLASS_ITEM_KINDS.get(e["cls"], []) if k in ITEM_ONLY_KINDS]
+        if r < 0.12 and iks and re.fullmatch(r"\w+", e["name"]):
+            return (e["name"], rng.choice(iks), None, None)
         if r < 0.35:
             return (spell(rng, e["name"]), None, None, None)
         if r < 0.55:
